@@ -243,6 +243,15 @@ func runProducers(c *Ctx, P string, orc outOracle) {
 			}
 		}
 	})
+	nfs := numberFormats()
+	c.Section(P+"/number-formats", map[string]interface{}{"formats": len(nfs), "arg_lists": 2}, len(nfs), func(i int, w *Worker) {
+		for _, ai := range []int{1, 4} {
+			w.Eval()
+			if dt := produceFmt(nfs[i], al[ai], orc, w.SeenB); dt != "" {
+				fail(w, "program", map[string]interface{}{"F": []byte(nfs[i]), "A": ai, "quoted": q(nfs[i])}, dt)
+			}
+		}
+	})
 	c.Section(P+"/formats-2byte", map[string]interface{}{"formats": "all 1- and 2-byte strings and '%' + all 2-byte strings", "arg_lists": 2}, 65536, func(i int, w *Worker) {
 		b0, b1 := byte(i>>8), byte(i)
 		fs := []string{string([]byte{b0, b1}), "%" + string([]byte{b0, b1})}
@@ -374,7 +383,7 @@ func registerProducerReplayers(P string, orc outOracle) {
 		json.Unmarshal(raw, &cs)
 		return produceFmt(string(cs.F), producerArgLists()[cs.A], orc, nil)
 	}
-	replayers[P+"/programs"], replayers[P+"/formats-2byte"], replayers[P+"/indexed"] = rp, rp, rp
+	replayers[P+"/programs"], replayers[P+"/formats-2byte"], replayers[P+"/indexed"], replayers[P+"/number-formats"] = rp, rp, rp, rp
 	replayers[P+"/bytes"] = func(c *Ctx, raw json.RawMessage) string {
 		var cs struct{ B []byte }
 		json.Unmarshal(raw, &cs)
